@@ -80,6 +80,8 @@ def check(repo, col, tier):
     c08._pairing(repo, col, "R-C05-pairing")
     # a trainable that is bypassed on one use (read from the tables instead of `params`) gets only part of its derivative
     from . import c10 as _c10
+    col.rule("R-C05-order", "data fed later overrides data fed earlier (the value given last receives the gradient)", 1)
+    _c10.override_order(repo, col, "R-C05-order")
     col.rule("R-C05-paramsource", "the step reads every physical quantity from the `params` it is given, never from the module's tables", 6)
     _c10.param_source(repo, col, "R-C05-paramsource")
 
